@@ -234,3 +234,7 @@ Lemma translator_flags :
   DISPATCH_VERSION_VIA_GET = true /\ ENGINE_DESERIALIZE_DECODES_FIRST = true /\
   COMPLETE_REGEX_BODY_VIA_STRIP = true /\ DISPATCH_V0_VERSION = V0_VERSION_BYTE.
 Proof. repeat split. Qed.
+
+(* F25 (fixed in /repo by 20ac931): the v0 decoder entry point is the slice-bounded one *)
+Lemma decoder_entry_bounded : V0_DECODER_ENTRY = "from_slice"%string.
+Proof. reflexivity. Qed.
